@@ -296,10 +296,10 @@ impl Check for C16 {
         ]
     }
     fn cases(&self, tier: Tier) -> u64 {
-        tier.pick(4_000, 150_000)
+        tier.pick(20_000, 150_000)
     }
     fn min_nontrivial(&self, tier: Tier) -> u64 {
-        tier.pick(100_000, 1_000_000)
+        tier.pick(500_000, 1_000_000)
     }
     fn miri_lane(&self, tier: Tier) -> Option<(Vec<&'static str>, usize, usize)> {
         if tier == Tier::Thorough { Some((vec!["amount"], 8, 500)) } else { None }
